@@ -660,25 +660,31 @@ def make_shrinker():
 
 
 def run(ctx):
-    ctx.rule = ("case = (component configuration, mode, history of <= 40 task exits); configuration = maxRestarts in "
+    ctx.rule = ("case = (component configuration, mode, history of <= 40 launches+task exits); configuration = maxRestarts in "
                 "{unset,-1,0,1,2,3,4,7} x restartHookFile in {unset,'',custom.py} x restartHookOn (unset, [], random "
                 "schema-valid subset, SubmissionFailed over-represented) x hook module on disk (absent, scripted, 3 broken "
-                "kinds, ImportError) x backend (local, simulator with sim_restart variants) x engine kind; every exit = "
-                "(exit reason, hook answer out of 6 contexts/True/False/raising/IOError/12 junk values, CONTROL file, run() "
-                "raising, system stable); mode = real Controller._restartComponent (history continues after refusals) or "
-                "real Controller.postMortemCheck (refusal finalises). Non-trivial = the history contains at least one "
-                "initiated and at least one refused restart; distinct by canonical JSON.")
+                "kinds, ImportError) x backend (local, simulator with sim_restart variants) x engine kind; every step = "
+                "(how the launch goes: Task object created / generator raises OSError / JobLaunchError / other exception, "
+                "exit reason the task reports, hook answer out of 6 contexts/True/False/raising/IOError/12 junk values, CONTROL "
+                "file, run() raising, system stable); mode = real Controller._restartComponent (history continues after "
+                "refusals) or real Controller.postMortemCheck (refusal finalises). Non-trivial = the history contains at least "
+                "one initiated and at least one refused restart; distinct by canonical JSON.")
     ctx.assumptions = [
-        "engine.run / the RepeatingEngine restart thread are intercepted (counted, optionally raising): what the launched "
-        "task does afterwards is the next scripted exit",
-        "a task exit is injected through the real Engine._setExitReason (RepeatingEngine: through the ivars its real "
-        "exitReason() reads); real thread interleavings of RxPY are replaced by synchronous schedulers",
-        "run() raising is only injected in the _restartComponent mode: with the intercepted run() the engine of a "
-        "failed launch cannot die, so the asynchronous path of ComponentState.finish is not observable",
+        "Engine: the real Engine.run executes for the first launch and every launch made by Engine.restart, with a harness "
+        "task generator (fake Task objects with scripted exit reasons, or raising) and a harness-owned start observable; "
+        "what a created task does between launch and exit is not modelled (it has finished when wait() is called)",
+        "when no launch is pending (refused restart in the _restartComponent mode, run() raised, after the final state) the "
+        "next exit is injected through the real Engine._setExitReason; RepeatingEngine: through the ivars its real "
+        "exitReason() reads, its restart thread is intercepted (counted, optionally raising)",
+        "real thread interleavings of RxPY are replaced by synchronous schedulers; the launch delay (op.delay in engine.py) "
+        "is not waited for",
+        "run() raising is only injected in the _restartComponent mode: the engine of a failed launch cannot die by "
+        "itself, so the asynchronous path of ComponentState.finish is not observable",
         "restartHookOn / maxRestarts restricted to what the FlowIR schema accepts (the loader rejects the rest, checked once per run)",
     ]
-    ctx.trusted.append("C12: rx pools/interval, time.sleep in control.py, isSystemStable answer, threading.Thread in engine.py "
-                       "replaced by harness stand-ins; migratable components, the optimizer and real backends not exercised")
+    ctx.trusted.append("C12: rx pools/interval, op.delay in engine.py, time.sleep in control.py, isSystemStable answer, "
+                       "threading.Thread in engine.py replaced by harness stand-ins; task generator and Task objects are harness "
+                       "fakes; migratable components, the optimizer and real backends not exercised")
     root = tempfile.mkdtemp(prefix="c12-")
     cwd = os.getcwd()
     ctx.shrinker = make_shrinker()
